@@ -21,11 +21,11 @@ type kaStep struct {
 }
 
 // runKeepAlive executes one client schedule against a fresh broker with KeepAlive = k seconds.
-// One grid unit is k/5 seconds.
+// One grid unit is k/10 seconds.
 func runKeepAlive(steps []kaStep, k int) string {
 	r := newBrokerRun("mockSuccess", 2)
 	defer r.cleanup()
-	unit := time.Duration(k) * time.Second / 5
+	unit := time.Duration(k) * time.Second / 10
 	// witness subscribed to the will topic
 	wit, err := r.rawConnect("w", bAct{K: "kawit", Clean: true, Ka: 600})
 	if err != nil {
@@ -88,7 +88,7 @@ func runKeepAlive(steps []kaStep, k int) string {
 		case "dropped":
 			if ca.IsZero() {
 				return fmt.Sprintf("step %d: the client was silent for %v (%.1f x KeepAlive %ds) and the connection is still open", i,
-					time.Duration(st.Gap)*unit, float64(st.Gap)/5, k)
+					time.Duration(st.Gap)*unit, float64(st.Gap)/10, k)
 			}
 			if d := ca.Sub(lastSend); d < time.Duration(k)*time.Second {
 				return fmt.Sprintf("step %d: connection closed only %v after the last packet (KeepAlive %ds)", i, d.Round(10*time.Millisecond), k)
